@@ -1,0 +1,61 @@
+//! Verification hooks for external runtime monitors.
+//!
+//! Compiled only with `--cfg ae9rb_basic_lang_verif`. Nothing in here changes
+//! behaviour: the probe is a read-only copy of interpreter state taken between
+//! API calls, and `tick` only counts loop iterations against a budget that is
+//! unlimited unless a monitor lowers it.
+
+use super::Val;
+use std::cell::Cell;
+
+/// Read-only snapshot of the virtual machine, see `Runtime::verif_probe`.
+#[derive(Debug, Clone)]
+pub struct VerifProbe {
+    pub pc: usize,
+    pub entry_address: usize,
+    pub state: &'static str,
+    pub cont: &'static str,
+    pub cont_pc: usize,
+    pub dirty: bool,
+    pub tron: bool,
+    pub print_col: usize,
+    pub stack: Vec<Val>,
+    pub vars: Vec<(String, Val)>,
+    pub dims: Vec<(String, Vec<i16>)>,
+    pub types: [u8; 26],
+    pub functions: Vec<(String, usize, usize)>,
+    pub code_len: usize,
+    pub data_len: usize,
+    pub data_pos: usize,
+    pub direct_address: usize,
+    pub next_op: String,
+    pub line_at_pc: Option<u16>,
+}
+
+thread_local! {
+    static FUEL: Cell<u64> = const { Cell::new(u64::MAX) };
+}
+
+/// Sets the number of loop iterations the hooked loops may perform on this thread.
+pub fn set_fuel(n: u64) {
+    FUEL.with(|f| f.set(n));
+}
+
+/// Remaining loop iterations.
+pub fn fuel() -> u64 {
+    FUEL.with(|f| f.get())
+}
+
+/// Called at the head of hand written loops. Panics once the budget is used up.
+pub fn tick(site: &'static str) {
+    FUEL.with(|f| {
+        let v = f.get();
+        if v == 0 {
+            f.set(u64::MAX);
+            panic!("VERIF-FUEL-EXHAUSTED at {}", site);
+        }
+        if v != u64::MAX {
+            f.set(v - 1);
+        }
+    });
+}
